@@ -356,6 +356,9 @@ pub fn run(ctx: &Ctx) -> Report {
         }
         rep.note("thread_counts", t.to_string());
     }
+    if !ctx.quick() || std::env::var("VERIF_C11_TSAN").is_ok() {
+        tsan_schedules(ctx, &inputs, &mut rep);
+    }
     if !ctx.quick() {
         miri_schedules(ctx, &mut rep);
     }
@@ -410,5 +413,147 @@ fn miri_schedules(ctx: &Ctx, rep: &mut Report) {
         });
     } else if !out.status.success() || ok_runs == 0 {
         rep.inconclusive.push(format!("miri run did not complete ({} ok runs): {}", ok_runs, one_line(&stderr, 400)));
+    }
+}
+
+const TSAN_DRIVER: &str = include_str!("c11tsan_driver.rs.in");
+
+/// Thorough tier: the compiler built with ThreadSanitizer (nightly, -Zsanitizer=thread, std rebuilt with the same flag so
+/// that every synchronisation the program uses is seen) compiles the corpus / grammar inputs on 16 threads at once, twice:
+/// without rustfmt, and (fewer inputs, 4 threads) with rustfmt reachable so that the helper thread feeding rustfmt's stdin
+/// runs inside the observed executions. Oracles: the sanitizer's data-race reports (deduplicated by the first frame inside
+/// the compiler) and the driver's own byte comparison with a single-threaded reference. A build or start failure is
+/// inconclusive.
+fn tsan_schedules(ctx: &Ctx, inputs: &[(String, String)], rep: &mut Report) {
+    use std::process::{Command, Stdio};
+    let ws = format!("{VERIF_DIR}/gen-ws/tsan-c11");
+    let proj = format!("{ws}/proj");
+    let _ = std::fs::create_dir_all(format!("{proj}/src"));
+    let manifest = format!("[package]\nname = \"tsan-c11\"\nversion = \"0.0.0\"\nedition = \"2021\"\n\n[workspace]\n\n[dependencies]\nrasn-compiler = {{ path = \"{REPO_DIR}/rasn-compiler\" }}\n\n[profile.dev]\nopt-level = 1\n");
+    let write = |p: String, s: &str| {
+        if std::fs::read_to_string(&p).ok().as_deref() != Some(s) {
+            let _ = std::fs::write(&p, s);
+        }
+    };
+    write(format!("{proj}/Cargo.toml"), &manifest);
+    write(format!("{proj}/src/main.rs"), TSAN_DRIVER);
+    let _ = std::fs::copy(format!("{REPO_DIR}/Cargo.lock"), format!("{proj}/Cargo.lock"));
+    let build = Command::new("cargo")
+        .args(["+nightly", "build", "--offline", "-Zbuild-std", "--target", "x86_64-unknown-linux-gnu"])
+        .current_dir(&proj)
+        .env("CARGO_NET_OFFLINE", "true")
+        .env("RUSTFLAGS", "-Zsanitizer=thread")
+        .stdin(Stdio::null())
+        .stdout(Stdio::null())
+        .stderr(Stdio::piped())
+        .output();
+    match build {
+        Ok(o) if o.status.success() => {}
+        Ok(o) => {
+            rep.inconclusive.push(format!("tsan: build failed: {}", one_line(&String::from_utf8_lossy(&o.stderr).lines().rev().take(5).collect::<Vec<_>>().join(" / "), 400)));
+            return;
+        }
+        Err(e) => {
+            rep.inconclusive.push(format!("tsan: cannot run cargo: {e}"));
+            return;
+        }
+    }
+    let bin = format!("{proj}/target/x86_64-unknown-linux-gnu/debug/tsan-c11");
+    let n_inputs: usize = std::env::var("VERIF_C11_TSAN_INPUTS").ok().and_then(|s| s.parse().ok()).unwrap_or(ctx.pick(120, 500));
+    for (mode, threads, take) in [("plain", 16usize, n_inputs), ("rustfmt", 4usize, n_inputs / 8)] {
+        let dir = format!("{ws}/inputs-{mode}");
+        let _ = std::fs::remove_dir_all(&dir);
+        let _ = std::fs::create_dir_all(&dir);
+        let mut n = 0;
+        for (i, (_, text)) in inputs.iter().filter(|x| x.1.len() <= 30_000).enumerate().take(take) {
+            if std::fs::write(format!("{dir}/{i:05}.asn"), text).is_ok() {
+                n += 1;
+            }
+        }
+        for old in std::fs::read_dir(&ws).into_iter().flatten().flatten() {
+            if old.file_name().to_string_lossy().starts_with(&format!("tsan-{mode}.log")) {
+                let _ = std::fs::remove_file(old.path());
+            }
+        }
+        let mut cmd = Command::new(&bin);
+        cmd.args([dir.as_str(), &threads.to_string(), "1"]);
+        if mode == "rustfmt" {
+            cmd.arg("rustfmt");
+            // the compiler derives the rustfmt path from CARGO_HOME / CARGO (main() removed both from this process)
+            let home = std::env::var("HOME").unwrap_or_else(|_| "/root".into());
+            cmd.env("CARGO_HOME", format!("{home}/.cargo"));
+        }
+        let out = cmd
+            .env("TSAN_OPTIONS", format!("halt_on_error=0 exitcode=66 second_deadlock_stack=1 log_path={ws}/tsan-{mode}.log"))
+            .stdin(Stdio::null())
+            .stdout(Stdio::piped())
+            .stderr(Stdio::null())
+            .output();
+        let out = match out {
+            Ok(o) => o,
+            Err(e) => {
+                rep.inconclusive.push(format!("tsan[{mode}]: cannot start the driver: {e}"));
+                continue;
+            }
+        };
+        let stdout = String::from_utf8_lossy(&out.stdout).to_string();
+        let done = stdout.lines().find(|l| l.starts_with("TSAN-C11 done")).unwrap_or("").to_string();
+        let compared: u64 = done.split_whitespace().find_map(|w| w.strip_prefix("compared=")).and_then(|x| x.parse().ok()).unwrap_or(0);
+        rep.count(&format!("tsan_compared[{mode}]"), compared);
+        rep.count(&format!("tsan_inputs[{mode}]"), n as u64);
+        rep.evaluations += compared;
+        rep.nontrivial.insert(hash_str(&format!("tsan|{mode}|{n}|{threads}")));
+        for l in stdout.lines().filter(|l| l.starts_with("TSAN-C11 DIFF")).take(20) {
+            rep.violations.push(Violation {
+                sig: "c11|tsan-threads|bytes differ".into(),
+                what: format!("ThreadSanitizer build, {threads} threads ({mode}): result differs from the single-threaded reference: {l}"),
+                replay: json!({"mode": mode, "threads": threads, "line": l, "inputs_dir": dir}),
+            });
+        }
+        // sanitizer reports: one block per `WARNING: ThreadSanitizer: <kind>`; key = kind + first frame inside the compiler
+        let mut reports = 0u64;
+        for f in std::fs::read_dir(&ws).into_iter().flatten().flatten() {
+            if !f.file_name().to_string_lossy().starts_with(&format!("tsan-{mode}.log")) {
+                continue;
+            }
+            let text = std::fs::read_to_string(f.path()).unwrap_or_default();
+            let mut kind = String::new();
+            let mut frame: Option<String> = None;
+            let mut block = String::new();
+            let mut flush = |kind: &str, frame: &Option<String>, block: &str, rep: &mut Report| {
+                if kind.is_empty() {
+                    return;
+                }
+                let fr = frame.clone().unwrap_or_else(|| "outside-the-compiler".into());
+                rep.violations.push(Violation {
+                    sig: format!("c11|tsan|{kind}|{fr}"),
+                    what: format!("ThreadSanitizer ({mode}, {threads} threads): {kind}, first compiler frame `{fr}`"),
+                    replay: json!({"mode": mode, "threads": threads, "report": one_line(block, 6000), "inputs_dir": dir}),
+                });
+            };
+            for l in text.lines() {
+                if let Some(k) = l.trim().strip_prefix("WARNING: ThreadSanitizer: ") {
+                    flush(&kind, &frame, &block, rep);
+                    reports += 1;
+                    kind = k.split(" (pid").next().unwrap_or(k).trim().to_string();
+                    frame = None;
+                    block.clear();
+                }
+                if !kind.is_empty() {
+                    block.push_str(l);
+                    block.push('\n');
+                    if frame.is_none() && l.trim_start().starts_with('#') && l.contains("rasn_compiler::") {
+                        let f = l.split("rasn_compiler::").nth(1).unwrap_or("").split_whitespace().next().unwrap_or("");
+                        frame = Some(f.split("::h").next().unwrap_or(f).to_string());
+                    }
+                }
+            }
+            flush(&kind, &frame, &block, rep);
+        }
+        rep.count(&format!("tsan_reports[{mode}]"), reports);
+        rep.note("tsan_runs", format!("{mode}: threads={threads} inputs={n} compared={compared} reports={reports} exit={:?}", out.status.code()));
+        if compared == 0 {
+            rep.inconclusive.push(format!("tsan[{mode}]: the driver compared nothing (exit {:?}): {}", out.status.code(), one_line(&stdout, 300)));
+        }
     }
 }
